@@ -478,7 +478,7 @@ func (st *runState) checkDocument(r *reqRec, add func(p, oracle, sig, detail str
 		return
 	}
 	switch rq.Kind {
-	case "labels", "label_values", "prom_labels", "prom_label_values", "tags", "tag_values":
+	case "labels", "label_values", "prom_labels", "prom_label_values", "tags", "tag_values", "series", "prom_series":
 		// list endpoints: every served string exactly once, in the order served
 		var data []*sqlfake.Stmt
 		for _, s := range r.Stmts {
@@ -494,12 +494,27 @@ func (st *runState) checkDocument(r *reqRec, add func(p, oracle, sig, detail str
 			for _, key := range []string{"data", "tagNames", "tagValues"} {
 				if arr, ok := m[key].([]any); ok {
 					for _, v := range arr {
+						if obj, isObj := v.(map[string]any); isObj {
+							// series endpoints: one label set per element; compared as documents
+							c, _ := json.Marshal(obj)
+							got = append(got, string(c))
+							continue
+						}
 						got = append(got, fmt.Sprint(v))
 					}
 				}
 			}
 		}
-		want := data[0].Strings
+		want := append([]string(nil), data[0].Strings...)
+		if rq.Kind == "series" || rq.Kind == "prom_series" {
+			for i, w := range want {
+				var obj map[string]any
+				if json.Unmarshal([]byte(w), &obj) == nil {
+					c, _ := json.Marshal(obj)
+					want[i] = string(c)
+				}
+			}
+		}
 		if len(got) != len(want) {
 			add("C15", "list-differs", "label/tag list differs from the rows served: "+rq.Kind, fmt.Sprintf("req%d %s: served %d values %.200q, document has %d: %.200q", r.ID, r.Path, len(want), want, len(got), got))
 			return
@@ -509,6 +524,43 @@ func (st *runState) checkDocument(r *reqRec, add func(p, oracle, sig, detail str
 				add("C15", "list-differs", "label/tag list differs from the rows served: "+rq.Kind, fmt.Sprintf("req%d %s: element %d served %q, document has %q", r.ID, r.Path, i, want[i], got[i]))
 				return
 			}
+		}
+		return
+	}
+	if rq.Kind == "trace" || rq.Kind == "trace_json" {
+		// every stored span of the trace appears once
+		var data []*sqlfake.Stmt
+		for _, s := range r.Stmts {
+			if s.Class == "data" {
+				data = append(data, s)
+			}
+		}
+		m, ok := doc.(map[string]any)
+		if len(data) != 1 || data[0].Aborted || !ok || rq.Result.TraceShape != 0 {
+			return
+		}
+		n := 0
+		ids := map[string]int{}
+		rss, _ := m["resourceSpans"].([]any)
+		for _, rs := range rss {
+			rsm, _ := rs.(map[string]any)
+			for _, key := range []string{"instrumentationLibrarySpans", "scopeSpans"} {
+				ils, _ := rsm[key].([]any)
+				for _, il := range ils {
+					ilm, _ := il.(map[string]any)
+					sps, _ := ilm["spans"].([]any)
+					for _, sp := range sps {
+						n++
+						if spm, ok := sp.(map[string]any); ok {
+							ids[fmt.Sprint(spm["spanId"])]++
+						}
+					}
+				}
+			}
+		}
+		if n != data[0].Served {
+			add("C15", "span-count-differs", "trace document does not hold every stored span once: "+rq.Kind,
+				fmt.Sprintf("req%d %s: %d spans served, %d in the document (distinct ids %d)", r.ID, r.Path, data[0].Served, n, len(ids)))
 		}
 		return
 	}
